@@ -492,10 +492,14 @@ class SymInt:
         w = self.e.size()
         a = _sx(self.e, w + 1)
         a = z3.If(a < 0, -a, a)
-        for k in range(0, w + 1):
-            if E().decide(z3.ULT(a, z3.BitVecVal(1 << k, w + 1))):
-                return k
-        return w
+        lo, hi = 0, w            # binary search over the magnitude classes (complete: every class is a leaf)
+        while lo < hi:
+            mid = (lo + hi) // 2
+            if E().decide(z3.ULT(a, z3.BitVecVal(1 << mid, w + 1))):
+                hi = mid
+            else:
+                lo = mid + 1
+        return lo
 
     def to_bytes(self, length=1, byteorder='big', *, signed=False):
         length = _cidx(length)
